@@ -7,6 +7,7 @@ import numpy as np
 
 from .probes import (
     ProbeKernel,
+    ProbeKernelB,
     det_next,
     divisors,
     gen_schedule,
@@ -182,7 +183,8 @@ def make_kernels(case, write=True):
             tab = np.zeros((case["chains"], T + 1), np.int32)
             for c, t, code in case["err"][ki]["cells"]:
                 tab[c, t] = code
-        ks.append(ProbeKernel(b["keys"], ki, nlog, prev_key=prev, needs_history=b["needs_history"],
+        cls = ProbeKernelB if ki % 2 else ProbeKernel
+        ks.append(cls(b["keys"], ki, nlog, prev_key=prev, needs_history=b["needs_history"],
                               err_table=tab, write=write, identifier=kid(ki)))
     return ks
 
